@@ -288,6 +288,705 @@ static void caseC02(long long k, Rng& g)
    S.end(k);
 }
 
+// ------------------------------------------------------------------------------------------------ C04
+static std::vector<VarStatus> toVS(const std::vector<int>& v)
+{
+   std::vector<VarStatus> r(v.size() + 1);
+   for(size_t i = 0; i < v.size(); i++) r[i] = (VarStatus)v[i];
+   return r;
+}
+// equal "up to marking variables with equal bounds as fixed"
+static bool sameStatus(int want, int got, bool equalBounds)
+{
+   if(want == got) return true;
+   if(equalBounds && got == (int)SPX::FIXED && (want == (int)SPX::ON_LOWER || want == (int)SPX::ON_UPPER)) return true;
+   if(equalBounds && want == (int)SPX::FIXED && (got == (int)SPX::ON_LOWER || got == (int)SPX::ON_UPPER)) return true;
+   return false;
+}
+// random valid basis description with an exactly regular basis matrix (or singular if wantSingular); false if none found
+static bool randomBasis(Rng& g, const LPModel& M, std::vector<int>& rs, std::vector<int>& cs, bool wantRegular)
+{
+   int m = M.m, n = M.n;
+   for(int attempt = 0; attempt < 30; attempt++)
+   {
+      std::vector<int> vars(m + n);
+      for(int k = 0; k < m + n; k++) vars[k] = k;
+      g.shuffle(vars);
+      std::vector<int> bind;
+      double pcol = g.unit();
+      // choose m basics, biased between slacks and structurals
+      std::vector<char> basic(m + n, 0);
+      int cnt = 0;
+      for(int k = 0; k < m + n && cnt < m; k++)
+      {
+         int v = vars[k];
+         bool isCol = v < n;
+         if(g.chance(isCol ? pcol : 1 - pcol) || (m + n - k) <= (m - cnt))
+         {
+            basic[v] = 1;
+            cnt++;
+         }
+      }
+      if(cnt != m) continue;
+      for(int v = 0; v < m + n; v++) if(basic[v]) bind.push_back(v < n ? v : -1 - (v - n));
+      bool reg = nonsingularQ(basisMatrix(M, bind));
+      if(reg != wantRegular) continue;
+      rs.assign(m, 0);
+      cs.assign(n, 0);
+      auto nb = [&](const Q & lo, const Q & up) -> int
+      {
+         bool fl = !isNInf(lo), fu = !isPInf(up);
+         if(fl && fu) return lo == up ? (int)SPX::FIXED : (g.chance(0.5) ? (int)SPX::ON_LOWER : (int)SPX::ON_UPPER);
+         if(fl) return (int)SPX::ON_LOWER;
+         if(fu) return (int)SPX::ON_UPPER;
+         return (int)SPX::ZERO;
+      };
+      for(int j = 0; j < n; j++) cs[j] = basic[j] ? (int)SPX::BASIC : nb(M.lo[j], M.up[j]);
+      for(int i = 0; i < m; i++) rs[i] = basic[n + i] ? (int)SPX::BASIC : nb(M.lhs[i], M.rhs[i]);
+      return true;
+   }
+   return false;
+}
+
+struct C04Res
+{
+   std::string tag, detail;
+   void set(const std::string& t, const std::string& d)
+   {
+      if(tag.empty())
+      {
+         tag = t;
+         detail = d;
+      }
+   }
+};
+
+static bool definiteStatus(int st)
+{
+   return st == SPX::OPTIMAL || st == SPX::INFEASIBLE || st == SPX::UNBOUNDED || st == SPX::INForUNBD;
+}
+// same verdict class: INForUNBD is compatible with INFEASIBLE and UNBOUNDED
+static bool sameVerdict(int a, int b)
+{
+   if(a == b) return true;
+   if(a == SPX::INForUNBD) return b == SPX::INFEASIBLE || b == SPX::UNBOUNDED;
+   if(b == SPX::INForUNBD) return a == SPX::INFEASIBLE || a == SPX::UNBOUNDED;
+   return false;
+}
+
+static C04Res c04Once(const Instance& I, const ParamSet& cfg, int loadMode, uint64_t subseed, bool count)
+{
+   Sink& S = sink();
+   C04Res R;
+   Rng g(99, subseed, 4);
+   const LPModel& M = I.M;
+   int m = M.m, n = M.n;
+   SoPlex sp;
+   quiet(sp);
+   cfg.apply(sp);
+   if(verbose && count) sp.setIntParam(SoPlex::VERBOSITY, 5, true);
+   loadReal(sp, M, loadMode);
+   sp.setIntParam(SoPlex::ITERLIMIT, 200000, true);
+   int scenario = g.range(0, 9);
+   if(verbose && count) fprintf(stderr, "%s\nscenario %d\n", M.toLPText().c_str(), scenario);
+   // scenario 0-5: plain solve; 6-7: aborted solve (iteration limit); 8-9: setBasis fuzz without a solve
+   if(scenario >= 6 && scenario <= 7) sp.setIntParam(SoPlex::ITERLIMIT, g.range(0, 6), true);
+   int st0 = 0;
+   double v0 = 0;
+   if(scenario <= 7)
+   {
+      sp.optimize();
+      st0 = (int)sp.status();
+      v0 = sp.hasSol() ? sp.objValueReal() : 0;
+      if(count) S.count(std::string("c04.after.") + statusName(st0));
+      if(verbose && count && sp.hasBasis())
+      {
+         std::vector<VarStatus> a(m + 1), b(n + 1);
+         sp.getBasis(a.data(), b.data());
+         fprintf(stderr, "%s\nscenario %d status %s iters %d rep %d\nrows:", M.toLPText().c_str(), scenario, statusName(st0), sp.numIterations(), (int)sp._solver.rep());
+         for(int i = 0; i < m; i++) fprintf(stderr, " %d", (int)a[i]);
+         fprintf(stderr, "\ncols:");
+         for(int j = 0; j < n; j++) fprintf(stderr, " %d", (int)b[j]);
+         fprintf(stderr, "\n");
+      }
+      if(sp.hasBasis())
+      {
+         if(count) S.count("c04.basis_checked");
+         std::string r = monitorBasis(sp, M, true);
+         if(!r.empty())
+         {
+            size_t c = r.find(':');
+            R.set("basis." + r.substr(0, c) + ".after-" + statusName(st0), r.substr(c + 1));
+            return R;
+         }
+      }
+      else if(st0 == SPX::OPTIMAL)
+      {
+         // an optimal floating-point solve always leaves a basis
+         R.set("nobasis.OPTIMAL", "status OPTIMAL but hasBasis() is false");
+         return R;
+      }
+   }
+   // reference: from-scratch result of the same configuration without limits
+   int stRef;
+   double vRef;
+   {
+      SoPlex ref;
+      quiet(ref);
+      cfg.apply(ref);
+      loadReal(ref, M, loadMode);
+      ref.setIntParam(SoPlex::ITERLIMIT, 200000, true);
+      ref.optimize();
+      stRef = (int)ref.status();
+      vRef = ref.hasSol() ? ref.objValueReal() : 0;
+   }
+   // reuse is compared only on instances whose class is certified and robust w.r.t. tolerances (two floating-point
+   // solves of a tolerance-ambiguous LP may legitimately disagree)
+   bool refUsable = definiteStatus(stRef) && I.T.known && I.T.robust;
+   if(I.T.known && I.T.robust)
+   {
+      // if the from-scratch solve itself is wrong w.r.t. certified truth this is C01/C02's business: skip reuse checks
+      int tst = I.T.status == REF_OPTIMAL ? (int)SPX::OPTIMAL : I.T.status == REF_INFEASIBLE ? (int)SPX::INFEASIBLE : (int)SPX::UNBOUNDED;
+      if(!sameVerdict(stRef, tst)) refUsable = false;
+   }
+   auto sameResult = [&](SoPlex & q, const char* what)
+   {
+      int st = (int)q.status();
+      if(!refUsable) return;
+      if(count) S.count(std::string("c04.reuse.") + what);
+      if(!sameVerdict(st, stRef))
+      {
+         R.set(std::string("reuse.") + what + "." + statusName(st), std::string("solve started from a returned basis ends ") + statusName(
+                  st) + ", from scratch " + statusName(stRef));
+         return;
+      }
+      if(st == SPX::OPTIMAL && stRef == SPX::OPTIMAL)
+      {
+         double v = q.objValueReal();
+         double sc = 1.0 + std::fabs(vRef);
+         VectorReal x(n);
+         q.getPrimal(x);
+         for(int j = 0; j < n; j++) sc += std::fabs(dq(M.obj[j]) * x[j]);
+         double rel = std::fabs(v - vRef) / sc;
+         if(count) S.maxi("c04.reuseObj/thr", rel / 1e-4);
+         if(rel > 1e-4) R.set(std::string("reuse.") + what + ".objective", "optimal value " + ds(v) + " after warm start, " + ds(vRef) + " from scratch");
+      }
+   };
+   if(scenario <= 7 && sp.hasBasis())
+   {
+      std::vector<int> rs(m), cs(n);
+      {
+         std::vector<VarStatus> a(m + 1), b(n + 1);
+         sp.getBasis(a.data(), b.data());
+         for(int i = 0; i < m; i++) rs[i] = (int)a[i];
+         for(int j = 0; j < n; j++) cs[j] = (int)b[j];
+      }
+      // (f1) continue in the same object with the limit lifted
+      sp.setIntParam(SoPlex::ITERLIMIT, 200000, true);
+      sp.optimize();
+      sameResult(sp, "same-object");
+      if(!R.tag.empty()) return R;
+      if(sp.hasBasis())
+      {
+         std::string r = monitorBasis(sp, M, true);
+         if(!r.empty())
+         {
+            size_t c = r.find(':');
+            R.set("basis." + r.substr(0, c) + ".after-resolve", r.substr(c + 1));
+            return R;
+         }
+      }
+      // (e)+(f2) new object, same LP, setBasis(b)
+      SoPlex q;
+      quiet(q);
+      cfg.apply(q);
+      loadReal(q, M, g.range(0, 2));
+      q.setIntParam(SoPlex::ITERLIMIT, 200000, true);
+      std::vector<VarStatus> a = toVS(rs), b = toVS(cs);
+      q.setBasis(a.data(), b.data());
+      if(count) S.count("c04.setbasis_roundtrip");
+      if(!q.hasBasis())
+      {
+         R.set("setbasis.lost", "hasBasis() false right after setBasis() with a basis returned by a solve");
+         return R;
+      }
+      std::vector<VarStatus> a2(m + 1), b2(n + 1);
+      q.getBasis(a2.data(), b2.data());
+      for(int i = 0; i < m; i++) if(!sameStatus(rs[i], (int)a2[i], isFin(M.lhs[i]) && M.lhs[i] == M.rhs[i]))
+         {
+            R.set("setbasis.readback", "row " + std::to_string(i) + " set " + std::to_string(rs[i]) + " read " + std::to_string((int)a2[i]));
+            return R;
+         }
+      for(int j = 0; j < n; j++) if(!sameStatus(cs[j], (int)b2[j], isFin(M.lo[j]) && M.lo[j] == M.up[j]))
+         {
+            R.set("setbasis.readback", "col " + std::to_string(j) + " set " + std::to_string(cs[j]) + " read " + std::to_string((int)b2[j]));
+            return R;
+         }
+      {
+         std::string r = monitorBasis(q, M, false);
+         if(!r.empty())
+         {
+            size_t c = r.find(':');
+            R.set("basis." + r.substr(0, c) + ".after-setBasis", r.substr(c + 1));
+            return R;
+         }
+      }
+      q.optimize();
+      sameResult(q, "new-object");
+      if(!R.tag.empty()) return R;
+      if(q.hasBasis())
+      {
+         std::string r = monitorBasis(q, M, true);
+         if(!r.empty())
+         {
+            size_t c = r.find(':');
+            R.set("basis." + r.substr(0, c) + ".after-warmstart", r.substr(c + 1));
+         }
+      }
+      return R;
+   }
+   if(scenario >= 8 && m > 0 && m <= 30)
+   {
+      std::vector<int> rs, cs;
+      bool regular = g.chance(0.8);
+      if(!randomBasis(g, M, rs, cs, regular)) return R;
+      if(count) S.count(regular ? "c04.setbasis_fuzz_regular" : "c04.setbasis_fuzz_singular");
+      std::vector<VarStatus> a = toVS(rs), b = toVS(cs);
+      if(verbose && count)
+      {
+         fprintf(stderr, "user basis rows:");
+         for(int i = 0; i < m; i++) fprintf(stderr, " %d", rs[i]);
+         fprintf(stderr, " cols:");
+         for(int j = 0; j < n; j++) fprintf(stderr, " %d", cs[j]);
+         fprintf(stderr, "\n");
+      }
+      sp.setBasis(a.data(), b.data());
+      if(!sp.hasBasis())
+      {
+         R.set("setbasis.lost", "hasBasis() false right after setBasis() with a valid basis description");
+         return R;
+      }
+      std::vector<VarStatus> a2(m + 1), b2(n + 1);
+      sp.getBasis(a2.data(), b2.data());
+      for(int i = 0; i < m; i++) if(!sameStatus(rs[i], (int)a2[i], isFin(M.lhs[i]) && M.lhs[i] == M.rhs[i]))
+         {
+            R.set("setbasis.readback", "row " + std::to_string(i) + " set " + std::to_string(rs[i]) + " read " + std::to_string((int)a2[i]));
+            return R;
+         }
+      for(int j = 0; j < n; j++) if(!sameStatus(cs[j], (int)b2[j], isFin(M.lo[j]) && M.lo[j] == M.up[j]))
+         {
+            R.set("setbasis.readback", "col " + std::to_string(j) + " set " + std::to_string(cs[j]) + " read " + std::to_string((int)b2[j]));
+            return R;
+         }
+      std::string r = monitorBasis(sp, M, false);
+      if(!r.empty())
+      {
+         size_t c = r.find(':');
+         R.set("basis." + r.substr(0, c) + ".after-setBasis", r.substr(c + 1));
+         return R;
+      }
+      // the property promises reuse only for bases the solver itself returned; a user-invented basis is only required to
+      // be stored faithfully.  The solve is still run (sanitizers watch it) and a basis it leaves is checked.
+      sp.optimize();
+      if(count) S.count(std::string("c04.userbasis_solve.") + statusName((int)sp.status()));
+      if(sp.hasBasis() && definiteStatus((int)sp.status()))
+      {
+         std::string r2 = monitorBasis(sp, M, true);
+         if(!r2.empty())
+         {
+            size_t c = r2.find(':');
+            R.set("basis." + r2.substr(0, c) + ".after-userbasis-solve", r2.substr(c + 1));
+         }
+      }
+   }
+   return R;
+}
+
+static void caseC04(long long k, Rng& g)
+{
+   Sink& S = sink();
+   static std::vector<ParamSet> pw = pairwiseConfigs(cli.seed + 4);
+   static const std::vector<std::string> fams = {"planted-opt", "degenerate", "arbitrary", "presolve-rich", "planted-infeasible", "planted-unbounded", "arbitrary", "planted-opt", "badly-scaled", "planted-both"};
+   std::string fam = fams[(size_t)(k % (long long)fams.size())];
+   int big = g.range(0, 19);
+   int mx = big == 0 ? 30 : big <= 3 ? 16 : 9;
+   Instance I = genFamily(g, fam, mx, mx);
+   ParamSet cfg = (k / 10) % 3 != 2 ? pw[(size_t)((k / 10) % (long long)pw.size())] : randomAlgConfig(g);
+   if(g.chance(0.2)) cfg = ParamSet();
+   int loadMode = g.range(0, 2);
+   uint64_t sub = g.next();
+   S.begin(k, fam + " " + std::to_string(I.M.m) + "x" + std::to_string(I.M.n) + " " + cfg.key());
+   if(!allExactDoubles(I.M))
+   {
+      S.count("gen.inexact_skipped");
+      S.end(k);
+      return;
+   }
+   ensureTruth(I);
+   S.count("cases");
+   S.count("family." + fam);
+   S.seen("cfg", fnv(cfg.key()));
+   S.seen("nontrivial", I.M.signature() ^ fnv(cfg.key()) ^ (sub % 10));
+   C04Res r = c04Once(I, cfg, loadMode, sub, true);
+   if(!r.tag.empty())
+   {
+      ParamSet mc;
+      std::string cell = cellKey(cfg, [&](const ParamSet & p)
+      {
+         return c04Once(I, p, loadMode, sub, false).tag == r.tag;
+      }, &mc);
+      S.viol("C04:" + r.tag + ":" + cell, r.detail + " | family " + fam + ", full config " + cfg.key(), replayJson(I.M, cfg, mc, loadMode));
+   }
+   if(k < 4) S.sample(Json().str("family", fam).num("m", I.M.m).num("n", I.M.n).str("config", cfg.key()).num("scenario", (long long)(sub % 10)).done());
+   S.end(k);
+}
+
+// ------------------------------------------------------------------------------------------------ C05
+// B in the user's space from getBasisInd and the model (unscale=true) or from the solver's internal (possibly scaled)
+// columns (unscale=false)
+static std::vector<std::vector<Q>> basisMatrixInternal(SoPlex& sp, const std::vector<int>& bind)
+{
+   int m = sp.numRows();
+   std::vector<std::vector<Q>> B(m, std::vector<Q>(m, Q(0)));
+   for(int k = 0; k < m; k++)
+   {
+      if(bind[k] >= 0)
+      {
+         const SVectorBase<double>& c = sp.colVectorRealInternal(bind[k]);
+         for(int t = 0; t < c.size(); t++) B[c.index(t)][k] = qd(c.value(t));
+      }
+      else B[-1 - bind[k]][k] = 1;
+   }
+   return B;
+}
+
+static C04Res c05Once(const Instance& I, const ParamSet& cfg, int loadMode, uint64_t subseed, bool count)
+{
+   Sink& S = sink();
+   C04Res R;
+   Rng g(77, subseed, 5);
+   const LPModel& M = I.M;
+   int m = M.m, n = M.n;
+   if(m == 0) return R;
+   SoPlex sp;
+   quiet(sp);
+   cfg.apply(sp);
+   loadReal(sp, M, loadMode);
+   sp.setIntParam(SoPlex::ITERLIMIT, 200000, true);
+   int scenario = g.range(0, 9);
+   if(scenario == 6) sp.setIntParam(SoPlex::ITERLIMIT, g.range(1, 5), true);
+   if(scenario <= 7) sp.optimize();
+   else
+   {
+      // user basis; optionally after a first solve so that scaling is active
+      if(g.chance(0.5)) sp.optimize();
+      std::vector<int> rs, cs;
+      if(m > 30 || !randomBasis(g, M, rs, cs, true)) return R;
+      std::vector<VarStatus> a = toVS(rs), b = toVS(cs);
+      sp.setBasis(a.data(), b.data());
+   }
+   if(!sp.hasBasis()) return R;
+   std::vector<int> bind(m + 1, 0);
+   sp.getBasisInd(bind.data());
+   bind.resize(m);
+   {
+      // getBasisInd must describe a basis (C04 checks that in depth); skip if exactly singular (nothing to compare with)
+      std::set<int> seen(bind.begin(), bind.end());
+      if((int)seen.size() != m) return R;
+   }
+   std::vector<std::vector<Q>> Buser = basisMatrix(M, bind);
+   if(m <= 40 && !nonsingularQ(Buser)) return R;
+   const char* rep = sp._solver.rep() == SPX::COLUMN ? "col" : "row";
+   bool scaled = sp._solver.isScaled();
+   if(count)
+   {
+      S.count(std::string("c05.bases.rep=") + rep + (scaled ? ".scaled" : ".unscaled"));
+      if(scaled)
+      {
+         bool nz = false;
+         for(int i = 0; i < m && !nz; i++) if(sp._scaler && sp._scaler->getRowScaleExp(i) != 0) nz = true;
+         for(int j = 0; j < n && !nz; j++) if(sp._scaler && sp._scaler->getColScaleExp(j) != 0) nz = true;
+         if(nz) S.count("c05.bases_with_nonzero_scale_exponent");
+      }
+   }
+   for(int us = 1; us >= 0; us--)
+   {
+      bool unscale = us == 1;
+      if(!unscale && !scaled) continue;
+      // for unscale=false the reference is the internal (scaled) column data
+      std::vector<std::vector<Q>> B = unscale ? Buser : basisMatrixInternal(sp, bind);
+      std::string sfx = std::string(".rep=") + rep + (scaled ? ".scaled" : ".unscaled") + (unscale ? "" : ".internal");
+      Q bnorm = 0;
+      for(int i = 0; i < m; i++)
+      {
+         Q rsum = 0;
+         for(int k = 0; k < m; k++) rsum += qabs(B[i][k]);
+         if(rsum > bnorm) bnorm = rsum;
+      }
+      auto thr = [&](const Q & resultNorm) { return 1e-8 * (1.0 + dq(bnorm) * dq(resultNorm)); };
+      const int CAN = 4;
+      int nidx = std::min(m, 6);
+      for(int t = 0; t < nidx; t++)
+      {
+         int kk = m <= 6 ? t : g.range(0, m - 1);
+         bool sparse = g.chance(0.5);
+         // ---- inverse column: B * col_k = e_k
+         {
+            std::vector<double> buf(m + 2 * CAN, 0.0);
+            for(int c = 0; c < CAN; c++) buf[c] = buf[m + CAN + c] = 12345.678;
+            std::vector<int> inds(m + 1, -7);
+            int ninds = -5;
+            bool ok = sp.getBasisInverseColReal(kk, buf.data() + CAN, sparse ? inds.data() : nullptr, sparse ? &ninds : nullptr, unscale);
+            if(count) S.count("c05.invcol" + sfx);
+            if(!ok)
+            {
+               R.set("invcol.failed" + sfx, "getBasisInverseColReal returned false although a regular basis is available");
+               return R;
+            }
+            for(int c = 0; c < CAN; c++) if(buf[c] != 12345.678 || buf[m + CAN + c] != 12345.678)
+               {
+                  R.set("invcol.canary" + sfx, "getBasisInverseColReal wrote outside [0,numRows)");
+                  return R;
+               }
+            std::vector<Q> col(m);
+            Q cn = 0;
+            for(int i = 0; i < m; i++)
+            {
+               col[i] = qd(buf[CAN + i]);
+               if(qabs(col[i]) > cn) cn = qabs(col[i]);
+            }
+            Q worst = 0;
+            for(int i = 0; i < m; i++)
+            {
+               Q a = 0;
+               for(int c = 0; c < m; c++) if(B[i][c] != 0 && col[c] != 0) a += B[i][c] * col[c];
+               Q e = qabs(a - (i == kk ? 1 : 0));
+               if(e > worst) worst = e;
+            }
+            double ratio = dq(worst) / thr(cn);
+            if(count) S.maxi("c05.invcol/thr", ratio);
+            if(ratio > 1)
+            {
+               R.set("invcol.residual" + sfx, "B * (column " + std::to_string(kk) + " of inverse) differs from the unit vector by " + ds(dq(worst)));
+               return R;
+            }
+            if(sparse && ninds >= 0)
+            {
+               if(count) S.count("c05.sparse_index_checked");
+               std::set<int> is(inds.begin(), inds.begin() + ninds);
+               for(int i = 0; i < m; i++) if((buf[CAN + i] != 0.0) != (is.count(i) > 0))
+                  {
+                     R.set("invcol.index" + sfx, "sparse index output does not list exactly the nonzero positions (position " + std::to_string(i) + ")");
+                     return R;
+                  }
+               if((int)is.size() != ninds)
+               {
+                  R.set("invcol.index" + sfx, "duplicate index in sparse output");
+                  return R;
+               }
+            }
+         }
+         // ---- inverse row: row_k * B = e_k^T
+         {
+            std::vector<double> buf(m + 2 * CAN, 0.0);
+            for(int c = 0; c < CAN; c++) buf[c] = buf[m + CAN + c] = 12345.678;
+            std::vector<int> inds(m + 1, -7);
+            int ninds = -5;
+            bool ok = sp.getBasisInverseRowReal(kk, buf.data() + CAN, sparse ? inds.data() : nullptr, sparse ? &ninds : nullptr, unscale);
+            if(count) S.count("c05.invrow" + sfx);
+            if(!ok)
+            {
+               R.set("invrow.failed" + sfx, "getBasisInverseRowReal returned false although a regular basis is available");
+               return R;
+            }
+            for(int c = 0; c < CAN; c++) if(buf[c] != 12345.678 || buf[m + CAN + c] != 12345.678)
+               {
+                  R.set("invrow.canary" + sfx, "getBasisInverseRowReal wrote outside [0,numRows)");
+                  return R;
+               }
+            std::vector<Q> row(m);
+            Q rn = 0;
+            for(int i = 0; i < m; i++)
+            {
+               row[i] = qd(buf[CAN + i]);
+               rn += qabs(row[i]);
+            }
+            Q worst = 0, cmax = 0;
+            for(int c = 0; c < m; c++)
+            {
+               Q a = 0, cs_ = 0;
+               for(int i = 0; i < m; i++) if(B[i][c] != 0)
+                  {
+                     cs_ += qabs(B[i][c]);
+                     if(row[i] != 0) a += row[i] * B[i][c];
+                  }
+               if(cs_ > cmax) cmax = cs_;
+               Q e = qabs(a - (c == kk ? 1 : 0));
+               if(e > worst) worst = e;
+            }
+            double ratio = dq(worst) / (1e-8 * (1.0 + dq(cmax) * dq(rn)));
+            if(count) S.maxi("c05.invrow/thr", ratio);
+            if(ratio > 1)
+            {
+               R.set("invrow.residual" + sfx, "(row " + std::to_string(kk) + " of inverse) * B differs from the unit row by " + ds(dq(worst)));
+               return R;
+            }
+            if(sparse && ninds >= 0)
+            {
+               if(count) S.count("c05.sparse_index_checked");
+               std::set<int> is(inds.begin(), inds.begin() + ninds);
+               for(int i = 0; i < m; i++) if((buf[CAN + i] != 0.0) != (is.count(i) > 0))
+                  {
+                     R.set("invrow.index" + sfx, "sparse index output does not list exactly the nonzero positions (position " + std::to_string(i) + ")");
+                     return R;
+                  }
+            }
+         }
+      }
+      // ---- solve / multiply with small integer vectors (B v exactly representable)
+      for(int t = 0; t < 3; t++)
+      {
+         std::vector<Q> v(m);
+         Q vn = 0;
+         for(int i = 0; i < m; i++)
+         {
+            v[i] = g.chance(0.6) ? Q(g.range(-4, 4)) : Q(0);
+            vn += qabs(v[i]);
+         }
+         std::vector<Q> Bv(m, Q(0)), BTv(m, Q(0));
+         for(int i = 0; i < m; i++) for(int c = 0; c < m; c++) if(B[i][c] != 0)
+               {
+                  if(v[c] != 0) Bv[i] += B[i][c] * v[c];
+                  if(v[i] != 0) BTv[c] += B[i][c] * v[i];
+               }
+         // multBasis: B v
+         {
+            std::vector<double> vec(m);
+            for(int i = 0; i < m; i++) vec[i] = dq(v[i]);
+            bool ok = sp.multBasis(vec.data(), unscale);
+            if(count) S.count("c05.mult" + sfx);
+            if(!ok)
+            {
+               R.set("mult.failed" + sfx, "multBasis returned false");
+               return R;
+            }
+            Q worst = 0;
+            for(int i = 0; i < m; i++) if(qabs(qd(vec[i]) - Bv[i]) > worst) worst = qabs(qd(vec[i]) - Bv[i]);
+            double ratio = dq(worst) / (1e-8 * (1.0 + dq(bnorm) * dq(vn)));
+            if(count) S.maxi("c05.mult/thr", ratio);
+            if(ratio > 1)
+            {
+               R.set("mult.value" + sfx, "multBasis(v) differs from B v by " + ds(dq(worst)));
+               return R;
+            }
+         }
+         // multBasisTranspose: B^T v
+         {
+            std::vector<double> vec(m);
+            for(int i = 0; i < m; i++) vec[i] = dq(v[i]);
+            bool ok = sp.multBasisTranspose(vec.data(), unscale);
+            if(count) S.count("c05.multT" + sfx);
+            if(!ok)
+            {
+               R.set("multT.failed" + sfx, "multBasisTranspose returned false");
+               return R;
+            }
+            Q worst = 0;
+            for(int i = 0; i < m; i++) if(qabs(qd(vec[i]) - BTv[i]) > worst) worst = qabs(qd(vec[i]) - BTv[i]);
+            double ratio = dq(worst) / (1e-8 * (1.0 + dq(bnorm) * dq(vn)));
+            if(count) S.maxi("c05.multT/thr", ratio);
+            if(ratio > 1)
+            {
+               R.set("multT.value" + sfx, "multBasisTranspose(v) differs from B^T v by " + ds(dq(worst)));
+               return R;
+            }
+         }
+         // solve: B sol = B v  =>  residual check on B sol - rhs
+         {
+            bool exactRhs = true;
+            std::vector<double> rhs(m), sol(m, 0.0);
+            for(int i = 0; i < m; i++)
+            {
+               rhs[i] = dq(Bv[i]);
+               if(qd(rhs[i]) != Bv[i]) exactRhs = false;
+            }
+            if(exactRhs)
+            {
+               bool ok = sp.getBasisInverseTimesVecReal(rhs.data(), sol.data(), unscale);
+               if(count) S.count("c05.solve" + sfx);
+               if(!ok)
+               {
+                  R.set("solve.failed" + sfx, "getBasisInverseTimesVecReal returned false");
+                  return R;
+               }
+               Q sn = 0, worst = 0;
+               std::vector<Q> sq(m);
+               for(int i = 0; i < m; i++)
+               {
+                  sq[i] = qd(sol[i]);
+                  if(qabs(sq[i]) > sn) sn = qabs(sq[i]);
+               }
+               for(int i = 0; i < m; i++)
+               {
+                  Q a = 0;
+                  for(int c = 0; c < m; c++) if(B[i][c] != 0 && sq[c] != 0) a += B[i][c] * sq[c];
+                  if(qabs(a - Bv[i]) > worst) worst = qabs(a - Bv[i]);
+               }
+               double ratio = dq(worst) / thr(sn);
+               if(count) S.maxi("c05.solve/thr", ratio);
+               if(ratio > 1)
+               {
+                  R.set("solve.residual" + sfx, "B * getBasisInverseTimesVecReal(rhs) differs from rhs by " + ds(dq(worst)));
+                  return R;
+               }
+            }
+         }
+      }
+   }
+   return R;
+}
+
+static void caseC05(long long k, Rng& g)
+{
+   Sink& S = sink();
+   static const std::vector<std::string> fams = {"planted-opt", "badly-scaled", "arbitrary", "degenerate", "badly-scaled", "planted-infeasible", "planted-unbounded", "presolve-rich"};
+   std::string fam = fams[(size_t)(k % (long long)fams.size())];
+   int mx = g.range(0, 9) == 0 ? 25 : 9;
+   Instance I = genFamily(g, fam, mx, mx);
+   // the property's explicit cross: representation x scaler x persistent scaling (other algorithmic parameters random)
+   ParamSet cfg = randomAlgConfig(g, 0.15);
+   cfg.i[SoPlex::REPRESENTATION] = (int)((k / 8) % 3);
+   cfg.i[SoPlex::SCALER] = (int)((k / 24) % 7);
+   cfg.b[SoPlex::PERSISTENTSCALING] = ((k / 168) % 2) == 0;
+   if(g.chance(0.5)) cfg.i[SoPlex::SIMPLIFIER] = 0;
+   cfg.normalise();
+   int loadMode = g.range(0, 2);
+   uint64_t sub = g.next();
+   S.begin(k, fam + " " + std::to_string(I.M.m) + "x" + std::to_string(I.M.n) + " " + cfg.key());
+   if(!allExactDoubles(I.M))
+   {
+      S.count("gen.inexact_skipped");
+      S.end(k);
+      return;
+   }
+   S.count("cases");
+   S.count("family." + fam);
+   S.seen("cfg", fnv(cfg.key()));
+   S.seen("nontrivial", I.M.signature() ^ fnv(cfg.key()) ^ (sub % 10));
+   C04Res r = c05Once(I, cfg, loadMode, sub, true);
+   if(!r.tag.empty())
+   {
+      ParamSet mc;
+      std::string cell = cellKey(cfg, [&](const ParamSet & p)
+      {
+         return c05Once(I, p, loadMode, sub, false).tag == r.tag;
+      }, &mc);
+      S.viol("C05:" + r.tag + ":" + cell, r.detail + " | family " + fam + ", full config " + cfg.key(), replayJson(I.M, cfg, mc, loadMode));
+   }
+   if(k < 4) S.sample(Json().str("family", fam).num("m", I.M.m).num("n", I.M.n).str("config", cfg.key()).done());
+   S.end(k);
+}
+
 int main(int argc, char** argv)
 {
    cli.parse(argc, argv);
@@ -300,6 +999,8 @@ int main(int argc, char** argv)
       Rng g(fnv(cli.prop), cli.seed, (uint64_t)k);
       if(cli.prop == "C01") caseC01(k, g);
       else if(cli.prop == "C02") caseC02(k, g);
+      else if(cli.prop == "C04") caseC04(k, g);
+      else if(cli.prop == "C05") caseC05(k, g);
       else
       {
          fprintf(stderr, "h_solve: unknown property %s\n", cli.prop.c_str());
